@@ -87,7 +87,7 @@ func buildOptions(root string, p *project, v variant, s schedule) api.BuildOptio
 		Write:         false,
 		LogLevel:      api.LogLevelSilent,
 		LogLimit:      0,
-		Loader: map[string]api.Loader{".png": api.LoaderFile, ".txt": api.LoaderText, ".svg": api.LoaderDataURL},
+		Loader:        map[string]api.Loader{".png": api.LoaderFile, ".txt": api.LoaderText, ".svg": api.LoaderDataURL},
 	}
 	for _, e := range p.Entries {
 		o.EntryPoints = append(o.EntryPoints, e)
@@ -256,6 +256,9 @@ func runGlue(r *Rng, st *Stats, n int, tier string) {
 	defer os.RemoveAll(tmp)
 	prevProcs := runtime.GOMAXPROCS(0)
 	defer runtime.GOMAXPROCS(prevProcs)
+
+	// first: nothing else has been built in this process yet
+	runInterference(r, st, tmp, tier)
 
 	runOptionScenarios(st, tmp, 40)
 
